@@ -11,7 +11,9 @@ import os
 import sys
 import warnings
 
-from spec_classes import Alias, DeprecatedAlias
+import copy
+
+from spec_classes import Alias, DeprecatedAlias, spec_class
 from spec_classes.types import MISSING
 
 
@@ -162,6 +164,36 @@ def run_seq(path, passthrough, transform, fallback, deprecated, seq):
     return None
 
 
+@spec_class(bootstrap=True)
+class Spec18:
+    x: int = 1
+    z: int = 0
+    y: int = Alias("x")
+
+
+def spec_copy_checks():
+    """alias state (target, local override) of a spec-class instance after deepcopy and copy-on-write helpers"""
+    a = Spec18(x=1)
+    a.y = 7
+    for label, mk in (("copy.deepcopy(a)", lambda: copy.deepcopy(a)), ("a.with_z(5)", lambda: a.with_z(5)), ("a.with_x(3)", lambda: a.with_x(3))):
+        c = mk()
+        if c.y != 7:
+            return "a = Spec18(x=1); a.y = 7; %s: the copy's alias reads %r - the local override was lost" % (label, c.y)
+        try:
+            del c.y
+        except AttributeError:
+            return "a = Spec18(x=1); a.y = 7; %s: deleting the override on the copy raised AttributeError" % label
+        if c.y != c.x:
+            return "%s: after deleting the override the copy's alias reads %r, its target holds %r" % (label, c.y, c.x)
+        if a.y != 7 or a.x != 1:
+            return "%s changed the receiver (y=%r, x=%r)" % (label, a.y, a.x)
+    b = Spec18(x=2)
+    c = b.with_x(4)
+    if c.y != 4 or b.y != 2:
+        return "Spec18(x=2).with_x(4): the copy's alias reads %r, the receiver's %r (expected 4, 2)" % (c.y, b.y)
+    return None
+
+
 def search(n):
     cases = 0
     for path in PATHS:
@@ -181,6 +213,10 @@ def search(n):
             return cases, "Alias(%r) accepted a malformed attribute path" % badpath, "Alias(%r) and 'accepted'" % badpath
         except ValueError:
             pass
+    cases += 1
+    bad = spec_copy_checks()
+    if bad:
+        return cases, bad, "spec_copy_checks()"
     return cases, None, None
 
 
